@@ -63,7 +63,7 @@ EnterNested == /\ Ev("Enter") /\ st = "run" /\ stack # <<>>
                /\ Top.sel # 0 /\ ~Top.hasout
                /\ LET arm == def.arms[Top.sel] IN
                   /\ ~IsTailArm(def, arm)
-                  /\ \E xs \in CallSites(def, arm.body, Binds(arm.pat, Top.val)) :
+                  /\ \E xs \in CallSites(def, arm.body, ArmEnv(def, Top.sel, Top.val)) :
                        /\ ObsArgsEq(Rec[l].a, xs)
                        /\ stack' = Append(stack, Frame(ArgVal(def, xs)))
                /\ UNCHANGED <<def, pend, st>> /\ l' = l + 1
@@ -82,14 +82,14 @@ TailA == /\ Ev("Tail") /\ st = "run" /\ stack # <<>>
          /\ Top.sel # 0 /\ Rec[l].arm = Top.sel - 1
          /\ LET arm == def.arms[Top.sel] IN
             /\ IsTailArm(def, arm)
-            /\ stack' = ReplaceTop(Frame(ArgVal(def, EvalArgs(def, arm.body.args, Binds(arm.pat, Top.val)))))
+            /\ stack' = ReplaceTop(Frame(ArgVal(def, EvalArgs(def, arm.body.args, ArmEnv(def, Top.sel, Top.val)))))
          /\ UNCHANGED <<def, pend, st>> /\ l' = l + 1
 
 OutA == /\ Ev("Out") /\ st = "run" /\ stack # <<>>
         /\ Top.sel # 0 /\ ~Top.hasout /\ Rec[l].arm = Top.sel - 1
         /\ LET arm == def.arms[Top.sel] IN
            /\ ~IsTailArm(def, arm)
-           /\ Rec[l].v = Eval(def, arm.body, Binds(arm.pat, Top.val))
+           /\ Rec[l].v = Eval(def, arm.body, ArmEnv(def, Top.sel, Top.val))
         /\ stack' = ReplaceTop([Top EXCEPT !.hasout = TRUE, !.out = Rec[l].v])
         /\ UNCHANGED <<def, pend, st>> /\ l' = l + 1
 
